@@ -210,6 +210,18 @@ def check_case(run, case, tier='quick'):
         session.drop_session(sn)
         repo.drop_rules(name)
 
+def markov_stress_spec(rng):
+    """One big OMEN level (tens of thousands of strings) between ordinary structures; the run ends with a non-Markov pre-terminal."""
+    import itertools
+    alphabet = 'abcde'
+    ip = [[0, c] for c in alphabet]
+    cp = [[rng.choice([0, 0, 1]), a + b] for a in alphabet for b in alphabet]
+    ln = [10, 10, 10, 10, 10, 1, 0, 1]
+    om = dict(ngram=2, ip=ip, cp=cp, ln=ln, probs=[[2, 0.3], [3, 0.2], [4, 0.1]], keyspace=[[l, 1] for l in range(19)])
+    d2 = ['%02d' % i for i in range(60)]
+    rows = [[v, 0.5 / 30] for v in d2[:30]] + [[v, 1e-9] for v in d2[30:]]
+    return {'encoding': 'utf-8', 'uuid': 'mstress-%08x' % rng.getrandbits(32), 'base': [['M', 0.5], ['D2', 0.5]], 'prince': [], 'terms': {'D2': rows}, 'omen': om}
+
 def run(run, rng):
     run.required_events = ['main_runs', 'resumes', 'histories', 'histories_cut_strictly_inside_level', 'requit_inside_remainder']
     run.min_distinct = 20
@@ -219,6 +231,15 @@ def run(run, rng):
     for i in range(N[run.tier]):
         case = gen_case(rng)
         run.guard(case, check_case, run.tier, seconds=300)
+    # real processes, real timing: q typed at a random moment while a large OMEN level is being generated, then --load (C08's stream accounting)
+    from .c08 import check_cli_stress
+    nstress = (1 if run.shard[0] == 0 else 0) if run.tier == 'quick' else 2
+    for i in range(nstress):
+        run.guard({'spec': markov_stress_spec(rng), 'hseed': rng.getrandbits(32), 'stress': True, 'label': 'markov-cli'}, check_cli_stress, seconds=900)
 
 def replay(run, case):
-    check_case(run, case['case'], 'thorough')
+    if case['case'].get('stress'):
+        from .c08 import check_cli_stress
+        check_cli_stress(run, case['case'])
+    else:
+        check_case(run, case['case'], 'thorough')
